@@ -205,7 +205,7 @@ pub fn run(a: &Args, m: &mut Mon) {
     m.floors(FLOORS);
     canaries(m);
     let mut r = Rng::lane(a.seed, "C17", a.shard, 0);
-    let n = a.n(8_000, 400_000);
+    let n = a.n(30_000, 1_500_000);
     for _ in 0..n {
         macro_rules! fam {
             ($t:ident) => {
